@@ -673,6 +673,17 @@ def scalar_replace(fn: ast.AST, module) -> bool:
                 d[fname] = default
         return (d, [fname for fname, _ in flds]) if all(fname in d for fname, _ in flds) else None
 
+    # `a, b, c = _Group(x, y, z)`: the record is taken apart on the spot
+    unpacked_now = False
+    for n in ast.walk(fn):
+        if isinstance(n, ast.Assign) and len(n.targets) == 1 and isinstance(n.targets[0], ast.Tuple):
+            cf0 = ctor_fields(n.value)
+            if cf0 is not None and "*" not in cf0[0] and len(cf0[1]) == len(n.targets[0].elts) and not any(isinstance(t, ast.Starred) for t in n.targets[0].elts):
+                n.value = ast.copy_location(ast.Tuple([cf0[0][k] for k in cf0[1]], ast.Load()), n.value)
+                unpacked_now = True
+    if unpacked_now:
+        split_parallel_assign(fn)
+        ast.fix_missing_locations(fn)
     per_site = {}  # id(call) -> (field values, order): a local may be built in several branches
     copies = {}    # id(Name value) -> source group local: `best = fit`
     grow = True
@@ -700,8 +711,8 @@ def scalar_replace(fn: ast.AST, module) -> bool:
                 copies[id(v)] = v.id
             grow = True
     if not vals:
-        return False
-    changed = False
+        return unpacked_now
+    changed = unpacked_now
 
     def fld_name(g, f):
         return f"{g}__{f}"
